@@ -75,6 +75,10 @@ class ExprMixin(CallMixin):
         return literal(node.value)
 
     def ev_Name(self, node: ast.Name) -> Val:
+        alias = getattr(self, "flag_tests", {}).get("#attr:" + node.id)
+        if alias is not None:
+            # t = tok.type: what the path knows about tok.type is what it knows about t
+            return self.ev_Attribute(alias)
         if node.id in self.env:
             return self.env[node.id]
         return self.global_name(node.id)
@@ -378,6 +382,9 @@ class ExprMixin(CallMixin):
                 return base.elem if base.elem is not None else STRUCT
             if base.lit and base.kinds <= {"str", "bytes"}:
                 return Val(kinds=base.kinds, lit=True)
+            if self.nonempty_guard(node):
+                # text[0] / text[-1] under `if text.startswith("x")` / `if text:` / `len(text) > 0`: the index exists
+                return Val(kinds=base.kinds & FS({"str", "bytes", "StringType", "BytesType"}) or base.kinds)
             if self.key_derived(node.slice):
                 saved = set(self.effs)
                 self.cells_effects("__getitem__", None, base, idx, node, suppress={"KeyError"})
@@ -385,6 +392,30 @@ class ExprMixin(CallMixin):
             self.cells_effects("__getitem__", None, base, idx, node)
             return DYN
         return base.elem if base.elem is not None else STRUCT
+
+    def nonempty_guard(self, node: ast.Subscript) -> bool:
+        """``name[0]`` / ``name[-1]`` lexically inside the true branch of a test that implies ``name`` is non-empty."""
+        try:
+            i = fold(node.slice)
+        except ValueError:
+            return False
+        if i not in (0, -1) or not isinstance(strip_cast(node.value), ast.Name):
+            return False
+        nm = strip_cast(node.value).id
+        child, p = node, getattr(node, "_parent", None)
+        while p is not None and not isinstance(p, (ast.FunctionDef, ast.Lambda)):
+            if isinstance(p, (ast.If, ast.IfExp)) and (child in getattr(p, "body", []) or child is getattr(p, "body", None)):
+                for c in ast.walk(p.test):
+                    if isinstance(c, ast.Call) and isinstance(c.func, ast.Attribute) and c.func.attr in ("startswith", "endswith") and dotted(c.func.value) == nm and c.args:
+                        a = c.args[0]
+                        consts = a.elts if isinstance(a, ast.Tuple) else [a]
+                        if all(isinstance(x, ast.Constant) and isinstance(x.value, (str, bytes)) and x.value for x in consts):
+                            # the name must not be re-bound between the test and the use
+                            stores = [x for x in ast.walk(p) if isinstance(x, ast.Name) and x.id == nm and isinstance(x.ctx, ast.Store) and x.lineno <= node.lineno]
+                            if not stores:
+                                return True
+            child, p = p, getattr(p, "_parent", None)
+        return False
 
     def ev_BinOp(self, node: ast.BinOp) -> Val:
         a, b = self.ev(node.left), self.ev(node.right)
